@@ -481,3 +481,16 @@ Fixpoint below_level (lv : Z -> nat) (bound : nat) (e : expr) : bool :=
   end.
 Definition levelled (lv : Z -> nat) (cols : list (Z * expr)) : bool :=
   forallb (fun ce => below_level lv (lv (fst ce)) (snd ce)) cols.
+
+(* the recorded final values are the from-scratch values (CircularRefError where the recursive
+   evaluation is not finite); used for programs without try/except only *)
+Definition check_scratch (c : trace_case) : bool :=
+  match c with
+  | (cols, rows, vals, _, _, finals, _) =>
+      let P := prog_of cols rows in
+      let n := S (length (formula_cells cols rows)) in
+      forallb (fun cv => match scr P (val_of vals) n (fst cv) with
+                         | Some v => value_eqb v (snd cv)
+                         | None => value_eqb (VErr CircularRef) (snd cv)
+                         end) finals
+  end.
